@@ -203,7 +203,7 @@ impl Monitor for C10 {
             cuts.retain(|c| content.is_char_boundary(*c) && *c > 0); cuts.sort(); cuts.dedup();
             let mut chunks = Vec::new(); let mut prev = 0;
             for c in cuts.iter().chain(std::iter::once(&n)) { if *c > prev { chunks.push(json!(content[prev..*c])); prev = *c; } }
-            return json!({"kind": "executor", "pre": pre, "chunks": chunks, "head": rng.chance(1, 3)});
+            return json!({"kind": "executor", "pre": pre, "chunks": chunks, "head": rng.chance(1, 3), "limit": if rng.chance(1, 4) { json!(rng.below(4)) } else { J::Null }});
         }
         let kind = if tier == Tier::Thorough { match rng.below(40) { 0 => "threads", 1 if eng::cli_path().is_some() => "cli", 2 => "from-end", _ => "schedule" } } else { match rng.below(12) { 0 => "from-end", _ => "schedule" } };
         if kind == "schedule" && rng.chance(1, if tier == Tier::Thorough { 300 } else { 3000 }) { let len = *rng.pick(&[8192usize, 65_536, 1 << 20, 1 << 21]) + rng.below(9); return long_case(len, rng.below(3)); }
@@ -386,7 +386,8 @@ pub fn follow_exec_child(case: &J) -> i32 {
     let path = eng::scratch_dir().join("c10-exec.log");
     if std::fs::write(&path, &pre).is_err() { return 2; }
     let Ok(tables) = eng::tables_from(crate::monitors::c12::EVERYLINE) else { return 2; };
-    let Ok(stmt) = eng::parse("SELECT l FROM everyline") else { return 2; };
+    let sql = match case["limit"].as_u64() { Some(n) => format!("SELECT l FROM everyline LIMIT {}", n), None => "SELECT l FROM everyline".to_owned() };
+    let Ok(stmt) = eng::parse(&sql) else { return 2; };
     let Ok(file) = File::open(&path) else { return 2; };
     let running = Arc::new(AtomicBool::new(true));
     let next = Rc::new(RefCell::new(0usize));
@@ -403,6 +404,7 @@ pub fn follow_exec_child(case: &J) -> i32 {
     set_follow_eof(None);
     let _ = std::fs::remove_file(&path);
     println!("#status {}", match result { Ok(()) => "ok".to_owned(), Err(e) => format!("error {}", e) });
+    println!("#appended-chunks {}", *next.borrow());
     0
 }
 
@@ -431,11 +433,21 @@ fn check_executor(case: &J, obs: &mut Obs) -> Verdict {
     let mut appended: Vec<u8> = Vec::new();
     for c in &chunks { appended.extend_from_slice(c); }
     let total: Vec<u8> = if head { let mut t = pre.clone(); t.extend_from_slice(&appended); t } else { appended.clone() };
-    let want: Vec<String> = expected_lines(&total, 0).into_iter().map(|l| String::from_utf8_lossy(&l).into_owned()).collect();
-    let got: Vec<String> = text.lines().filter(|l| !l.is_empty() && !l.starts_with("#status")).map(|l| serde_json::from_str::<J>(l).ok().and_then(|j| j.get("l").and_then(|v| v.as_str().map(|s| s.to_owned()))).unwrap_or_else(|| format!("<unparsable {}>", l))).collect();
+    let mut want: Vec<String> = expected_lines(&total, 0).into_iter().map(|l| String::from_utf8_lossy(&l).into_owned()).collect();
+    // LIMIT n in follow mode: the first n lines, then the executor ends by itself
+    if let Some(n) = case["limit"].as_u64() { want.truncate(n as usize); obs.hit("executor:limit"); }
+    let got: Vec<String> = text.lines().filter(|l| !l.is_empty() && !l.starts_with("#status") && !l.starts_with("#appended-chunks")).map(|l| serde_json::from_str::<J>(l).ok().and_then(|j| j.get("l").and_then(|v| v.as_str().map(|s| s.to_owned()))).unwrap_or_else(|| format!("<unparsable {}>", l))).collect();
     if want.len() >= 2 && !pre.is_empty() { obs.nontrivial(); }
     let mode = if head { "head" } else { "end" };
     if status != "#status ok" { return Verdict::Violated(vec![Violation::new(format!("follow|executor|{}|error", mode), status.to_owned())]); }
+    // LIMIT n: once the n-th row is printed the executor ends; it does not go back to waiting for more input
+    if let Some(n) = case["limit"].as_u64() {
+        let polls: usize = text.lines().find_map(|l| l.strip_prefix("#appended-chunks ").and_then(|v| v.trim().parse().ok())).unwrap_or(0);
+        let mut have = if head { pre.iter().filter(|b| **b == b'\n').count() } else { 0 };
+        let mut needed = 0usize;
+        for c in &chunks { if (have as u64) >= n { break; } needed += 1; have += c.iter().filter(|b| **b == b'\n').count(); }
+        if polls > needed { return Verdict::Violated(vec![Violation::new(format!("follow|executor|{}|kept-waiting-after-limit", mode), format!("LIMIT {}: reached after {} appended chunks, but the executor polled for input {} times", n, needed, polls))]); }
+    }
     if got != want {
         let kind = if got.len() < want.len() { "lines-missing" } else if got.len() > want.len() { "lines-extra" } else { "content-differs" };
         return Verdict::Violated(vec![Violation::new(format!("follow|executor|{}|{}", mode, kind), format!("file held {:?} at start-up, then {:?} was appended: printed {:?}, expected {:?}", String::from_utf8_lossy(&pre), String::from_utf8_lossy(&appended).chars().take(80).collect::<String>(), got.iter().take(4).collect::<Vec<_>>(), want.iter().take(4).collect::<Vec<_>>()))]);
